@@ -1337,6 +1337,14 @@ class DataFieldRecordArray(
             raise TypeError(
                 'The arr argument must be an instance of DataFieldRecordArray!')
 
+        # Make sure that all data fields are present before any field of this
+        # DataFieldRecordArray gets modified.
+        for fname in self._field_name_list:
+            if fname not in arr:
+                raise KeyError(
+                    f'The data field "{fname}" is not present in the '
+                    'to-be-appended DataFieldRecordArray instance.')
+
         for fname in self._field_name_list:
             self._data_fields[fname] = np.append(
                 self._data_fields[fname], arr[fname])
